@@ -6,6 +6,8 @@ import (
 	"fmt"
 	"math"
 	"math/bits"
+	"os"
+	"reflect"
 	"sync"
 	"testing"
 
@@ -53,6 +55,10 @@ func c18Scenarios(cfg runCfg) []Scenario {
 	// (a') tiny float ranges, every representable value (ULP level)
 	for j := 0; j < cfg.n(1600, 5); j++ {
 		add(Scenario{Family: "floatulp", Seed: mix(cfg.seed, 18, 8, uint64(j))})
+	}
+	// (b') every integer kind x {full, Min, Max} form: type extremes, zero and the top bit band of the kind
+	for j := 0; j < cfg.n(360, 5); j++ {
+		add(Scenario{Family: "kinds", Seed: mix(cfg.seed, 18, 9, uint64(j)), K: j % 12, N: (j / 12) % 3})
 	}
 	// (c) edges
 	for j := 0; j < cfg.n(6400, 5); j++ {
@@ -315,6 +321,101 @@ func c18Run(t *testing.T, sc Scenario, res *Result) {
 			res.violate(sc, "c18/float-band-unreachable", fmt.Sprintf("full-range float (32-bit: %v): %d of %d (sign, exponent sign, exponent magnitude) bands never produced in %d draws: %v", is32, len(need), total, draws, need), nil)
 		}
 
+	case "kinds":
+		kinds := []struct {
+			name   string
+			bits   int
+			signed bool
+			full   *rapid.Generator[any]
+			min    func(lo int64, ulo uint64) *rapid.Generator[any]
+			max    func(hi int64, uhi uint64) *rapid.Generator[any]
+		}{
+			{"Int", 64, true, rapid.Int().AsAny(), func(l int64, _ uint64) *rapid.Generator[any] { return rapid.IntMin(int(l)).AsAny() }, func(h int64, _ uint64) *rapid.Generator[any] { return rapid.IntMax(int(h)).AsAny() }},
+			{"Int8", 8, true, rapid.Int8().AsAny(), func(l int64, _ uint64) *rapid.Generator[any] { return rapid.Int8Min(int8(l)).AsAny() }, func(h int64, _ uint64) *rapid.Generator[any] { return rapid.Int8Max(int8(h)).AsAny() }},
+			{"Int16", 16, true, rapid.Int16().AsAny(), func(l int64, _ uint64) *rapid.Generator[any] { return rapid.Int16Min(int16(l)).AsAny() }, func(h int64, _ uint64) *rapid.Generator[any] { return rapid.Int16Max(int16(h)).AsAny() }},
+			{"Int32", 32, true, rapid.Int32().AsAny(), func(l int64, _ uint64) *rapid.Generator[any] { return rapid.Int32Min(int32(l)).AsAny() }, func(h int64, _ uint64) *rapid.Generator[any] { return rapid.Int32Max(int32(h)).AsAny() }},
+			{"Int64", 64, true, rapid.Int64().AsAny(), func(l int64, _ uint64) *rapid.Generator[any] { return rapid.Int64Min(l).AsAny() }, func(h int64, _ uint64) *rapid.Generator[any] { return rapid.Int64Max(h).AsAny() }},
+			{"Uint", 64, false, rapid.Uint().AsAny(), func(_ int64, l uint64) *rapid.Generator[any] { return rapid.UintMin(uint(l)).AsAny() }, func(_ int64, h uint64) *rapid.Generator[any] { return rapid.UintMax(uint(h)).AsAny() }},
+			{"Uint8", 8, false, rapid.Uint8().AsAny(), func(_ int64, l uint64) *rapid.Generator[any] { return rapid.Uint8Min(uint8(l)).AsAny() }, func(_ int64, h uint64) *rapid.Generator[any] { return rapid.Uint8Max(uint8(h)).AsAny() }},
+			{"Uint16", 16, false, rapid.Uint16().AsAny(), func(_ int64, l uint64) *rapid.Generator[any] { return rapid.Uint16Min(uint16(l)).AsAny() }, func(_ int64, h uint64) *rapid.Generator[any] { return rapid.Uint16Max(uint16(h)).AsAny() }},
+			{"Uint32", 32, false, rapid.Uint32().AsAny(), func(_ int64, l uint64) *rapid.Generator[any] { return rapid.Uint32Min(uint32(l)).AsAny() }, func(_ int64, h uint64) *rapid.Generator[any] { return rapid.Uint32Max(uint32(h)).AsAny() }},
+			{"Uint64", 64, false, rapid.Uint64().AsAny(), func(_ int64, l uint64) *rapid.Generator[any] { return rapid.Uint64Min(l).AsAny() }, func(_ int64, h uint64) *rapid.Generator[any] { return rapid.Uint64Max(h).AsAny() }},
+			{"Byte", 8, false, rapid.Byte().AsAny(), func(_ int64, l uint64) *rapid.Generator[any] { return rapid.ByteMin(byte(l)).AsAny() }, func(_ int64, h uint64) *rapid.Generator[any] { return rapid.ByteMax(byte(h)).AsAny() }},
+			{"Uintptr", 64, false, rapid.Uintptr().AsAny(), func(_ int64, l uint64) *rapid.Generator[any] { return rapid.UintptrMin(uintptr(l)).AsAny() }, func(_ int64, h uint64) *rapid.Generator[any] { return rapid.UintptrMax(uintptr(h)).AsAny() }},
+		}
+		k := kinds[sc.K%len(kinds)]
+		// the kind's extremes as (signed, unsigned) pairs
+		var tmin, tmax int64
+		var umax uint64
+		if k.signed {
+			tmax = int64(1)<<(k.bits-1) - 1
+			tmin = -tmax - 1
+		} else {
+			umax = math.MaxUint64
+			if k.bits < 64 {
+				umax = uint64(1)<<k.bits - 1
+			}
+		}
+		g := k.full
+		lo, hi, ulo, uhi := tmin, tmax, uint64(0), umax
+		desc := k.name + "()"
+		switch sc.N {
+		case 1: // Min form with a bound in the upper half of the kind
+			if k.signed {
+				lo = tmax/2 + int64(r.next()%uint64(tmax/4+1))
+			} else {
+				ulo = umax/2 + r.next()%(umax/4+1)
+			}
+			g, desc = k.min(lo, ulo), fmt.Sprintf("%sMin(%d%d)", k.name, lo, ulo)
+		case 2: // Max form with a bound in the lower half
+			if k.signed {
+				hi = tmin/2 - int64(r.next()%uint64(tmax/4+1))
+			} else {
+				uhi = umax/2 - r.next()%(umax/4+1)
+			}
+			g, desc = k.max(hi, uhi), fmt.Sprintf("%sMax(%d%d)", k.name, hi, uhi)
+		}
+		needed := map[string]bool{}
+		var topSeen bool
+		inTop := func(v any) bool { return false }
+		if k.signed {
+			needed[fmt.Sprint(lo)], needed[fmt.Sprint(hi)] = true, true
+			if lo <= 0 && hi >= 0 {
+				needed["0"] = true
+			}
+			// top band: the upper half of the magnitudes on the larger side (besides the extreme itself)
+			inTop = func(v any) bool {
+				x, _ := intView(v)
+				return (x > hi/2+lo/2 && x < hi && hi > 0 && sc.N != 2) || (x < lo/2+hi/2 && x > lo && sc.N == 2)
+			}
+		} else {
+			needed[fmt.Sprint(ulo)], needed[fmt.Sprint(uhi)] = true, true
+			inTop = func(v any) bool {
+				x := reflect.ValueOf(v).Uint()
+				return x > ulo/2+uhi/2 && x < uhi
+			}
+		}
+		total := len(needed)
+		draws := 0
+		drawMany(g, 100000, sc.Seed, func(v any) bool {
+			draws++
+			delete(needed, fmt.Sprint(v))
+			if inTop(v) {
+				topSeen = true
+			}
+			return len(needed) > 0 || !topSeen
+		})
+		res.inc("kind_forms")
+		res.count("draws", int64(draws))
+		res.count("edges_required", int64(total))
+		res.nontrivial(desc)
+		if len(needed) > 0 {
+			res.violate(sc, "c18/kind-edge/"+k.name, fmt.Sprintf("%s: boundary values %v were never produced in %d draws", desc, keys(needed), draws), nil)
+		}
+		if !topSeen {
+			res.violate(sc, "c18/kind-top/"+k.name, fmt.Sprintf("%s: no value from the upper half of its range (other than the extreme) in %d draws", desc, draws), nil)
+		}
+
 	case "floatulp":
 		// Float64Range/Float32Range(a, a + k ulp), k in 1..20: all k+1 representable values must be produced
 		k := r.between(1, 20)
@@ -425,6 +526,37 @@ func c18Run(t *testing.T, sc Scenario, res *Result) {
 		}
 		res.inc("fresh_pairs")
 		res.nontrivial(fmt.Sprintf("fresh/%x", sc.Seed))
+		// freshness must not depend on what lies around: with an ignorable (stale) fail file for the test, too
+		{
+			name := fmt.Sprintf("C18stale_%x", sc.Seed&0xffff)
+			kind := pick(r, []string{"garbage", "other-version", "passes"})
+			switch kind {
+			case "garbage":
+				writeFailFile(name, "20260101000000-1", "!!", 0, nil, "junk")
+			case "other-version":
+				writeFailFile(name, "20260101000000-1", "v0.0.1", 5, []uint64{1, 2, 3}, "old")
+			default:
+				writeFailFile(name, "20260101000000-1", rapidVersion(), 5, []uint64{1, 2, 3, 4, 5, 6, 7, 8}, "passes now")
+			}
+			var st [2][]string
+			for k := 0; k < 2; k++ {
+				setFlags(map[string]string{"rapid.checks": "20", "rapid.nofailfile": "true"})
+				tb := newTB(name)
+				k := k
+				runCheck(tb, func(t *rapid.T) {
+					if rapid.VerifStreamOf(t).Kind != "random" {
+						rapid.Uint64().Draw(t, "u") // the stale file's replay is not part of the random sequence
+						return
+					}
+					st[k] = append(st[k], fmt.Sprint(permGen.Draw(t, "p")))
+				})
+			}
+			os.RemoveAll("testdata")
+			res.inc("fresh_pairs_with_stale_fail_file")
+			if fmt.Sprint(st[0]) == fmt.Sprint(st[1]) {
+				res.violate(sc, "c18/not-fresh-stale-file", "with an ignorable fail file ("+kind+") present, two Check calls without -rapid.seed generated the same sequence of test cases", map[string]any{"first_cases": clipList(st[0], 2)})
+			}
+		}
 		// one stored MakeCheck function invoked several times (table-driven sub-tests): every invocation is a fresh run
 		{
 			setFlags(map[string]string{"rapid.checks": "20", "rapid.nofailfile": "true"})
